@@ -10,13 +10,18 @@ Names == <<
   "x.py.js", "x.js.py", ".js", ".hid.css", "js", "noext",      \* 11-16 double ext, hidden, no dot
   "m.min.js", "m.minXjs", "v.c++", "v.c", "i.d.ts", "i.dXts",  \* 17-22 regex metacharacters in the extension
   "test_a.js", "a.pyc", "a.PY", "k.tpl", "a.js.map", "a.js~",  \* 23-28
-  "w[1].js", "a$.js", "q.django", "u.Py" >>                    \* 29-32 metacharacters in the stem
+  "w[1].js", "a$.js", "q.django", "u.Py",                     \* 29-32 metacharacters in the stem
+  "admin.js", "LICENSE", "nodejs" >>                           \* 33-35 end with a plain suffix ("min.js", "LICENSE", "js")
+                                                               \*       that is not preceded by a dot
 Dirs == << <<>>, <<"sub">>, <<"vendor", "lib">>, <<"pkg.py">>, <<"test_d", "in.js">> >>
 
 PatPool == <<
   Sfx(".js"), Sfx(".py"), Sfx(".tar.gz"), Sfx(".min.js"), Sfx(".c++"), Sfx(".JS"), Sfx(".d.ts"), Sfx(".css"),
   Rx("any"), Rx("js_dollar"), Rx("min_asset"), Rx("upper_ext"), Rx("test_part"), Rx("vendor_dir"),
-  Rx("hidden"), Rx("py_anycase"), Rx("no_ext") >>
+  Rx("hidden"), Rx("py_anycase"), Rx("no_ext"),
+  \* 18-21 plain suffixes without a leading dot: part of an extension, tail of a stem, part of a multi-dot
+  \* extension, a whole file name
+  Sfx("js"), Sfx("_a.js"), Sfx("min.js"), Sfx("LICENSE") >>
 
 Cfgs == <<
   Cfg(Unset, Unset, Unset),                                                  \*  1 defaults
@@ -34,18 +39,33 @@ Cfgs == <<
   Cfg(Lst(<<Rx("any")>>), Lst(<<Sfx(".min.js"), Sfx(".py")>>), Unset),       \* 13 allow all, suffix forbid
   Cfg(Lst(<<Rx("any")>>), Lst(<<Rx("py_anycase"), Rx("hidden")>>), Unset),   \* 14
   Cfg(Lst(<<Sfx(".JS"), Rx("no_ext")>>), Unset, Unset),                      \* 15 upper-case suffix
-  Cfg(Lst(<<Rx("any")>>), Unset, Lst(<<Rx("test_part"), Sfx(".tar.gz")>>)) >>\* 16 deprecated name, mixed
+  Cfg(Lst(<<Rx("any")>>), Unset, Lst(<<Rx("test_part"), Sfx(".tar.gz")>>)), \* 16 deprecated name, mixed
+  Cfg(Lst(<<Sfx(".js"), Sfx(".css"), Sfx("LICENSE"), Sfx("noext")>>),
+      Lst(<<Sfx("_a.js"), Sfx(".py"), Sfx("min.js")>>), Unset),              \* 17 plain suffixes: whole names allowed,
+                                                                             \*    stem tail / extension part forbidden
+  Cfg(Lst(<<Sfx("js"), Sfx("z")>>), Unset, Lst(<<Sfx("$.js"), Sfx("y.js")>>))>>\* 18 dot-less extension, single letter,
+                                                                             \*    metacharacter; deprecated name
 
 Parts(e) == Dirs[e.d] \o <<Names[e.n]>>
 PathStr(e) == JoinParts(Parts(e))
 
 SuffixesOf(c) == {p \in EffAllowed(c) \cup EffForbidden(c) : p.k = "suffix"}
-\* every suffix used is "an extension including the leading dot" and inside the deviation model
-SuffixesOK(c) == \A p \in SuffixesOf(c) : StartsWith(p.s, ".") /\ DevModelled(p.s)
+\* every suffix used is in scope (a dotted one inside the deviation model)
+SuffixesOK(c) == \A p \in SuffixesOf(c) : SuffixInScope(p.s)
+\* the alphabets can tell "suffix as given" from "suffix with a dot prepended": every plain suffix of the
+\* pool and of the catalogue has a name that ends with it but not with "." \o suffix, in a directory too
+PlainSuffixes == {p \in Range(PatPool) \cup UNION {SuffixesOf(Cfgs[i]) : i \in DOMAIN Cfgs} :
+                    p.k = "suffix" /\ ~StartsWith(p.s, ".")}
+ASSUME PlainSuffixesTold ==
+  /\ Cardinality(PlainSuffixes) >= 4
+  /\ \A p \in PlainSuffixes : \E i \in DOMAIN Names :
+        TellsDotted(p, Names[i]) /\ TellsDotted(p, JoinParts(Dirs[2] \o <<Names[i]>>))
 
 FileRow(p, c) == [p |-> p, exp |-> Exposed(p, c), dev |-> DevExposed(p, c), keys |-> DevKeys(p, c)]
 FileTheorems(p, c) == /\ DefaultsHideBackend(p, c)
                       /\ ForbidWins(p, c)
                       /\ EmptyAllowedHidesAll(p, c)
                       /\ (Exposed(p, c) # DevExposed(p, c) => DevKeys(p, c) # {})
+                      /\ \A q \in SuffixesOf(c) \ (DefaultAllowed \cup DefaultForbidden) :
+                            BaseNameSuffices(q, p) /\ DotPrependNarrows(q, p)
 =============================================================================
